@@ -178,9 +178,14 @@ fn addon_parts(scn: &Scn) -> (String, String, Vec<(String, Vec<String>)>) {
     if scn.addons & 64 != 0 {
         // the same value text read through the evaluator in two scopes where it means
         // different things
-        body.push_str("  <g w=\"5\" k=\"$w\"><text xy=\"0 85\" text=\"LM:{{$k}};\"/></g>\n  <g w=\"7\" k=\"$w\"><text xy=\"0 84\" text=\"LM:{{$k}};\"/><if test=\"eq($k, 7)\"><text xy=\"0 83\" text=\"LT:yes;\"/></if></g>\n");
+        for (wv, y) in [(5, 85), (7, 82)] {
+            body.push_str(&format!(
+                "  <g w=\"{wv}\"><g k=\"$w\"><g m=\"$k\"><if test=\"eq($k, {wv})\"><text xy=\"0 {y}\" text=\"LT:{wv};\"/></if><text xy=\"0 {}\" text=\"LM:{{{{$m}}}};\"/></g></g></g>\n",
+                y - 1
+            ));
+        }
         expect.push(("LM:".to_string(), vec!["LM:5;".to_string(), "LM:7;".to_string()]));
-        expect.push(("LT:".to_string(), vec!["LT:yes;".to_string()]));
+        expect.push(("LT:".to_string(), vec!["LT:5;".to_string(), "LT:7;".to_string()]));
     }
     (specs, body, expect)
 }
